@@ -440,7 +440,13 @@ def load(val: _T) -> PythonValueT | _T:
     Args:
         val: The value to decode.
     """
-    return strload(val) if inspection.istexttype(val.__class__) else val  # type: ignore[arg-type]
+    if not inspection.istexttype(val.__class__):
+        return val
+    # `strload` is memoized, so it needs a hashable key: take an immutable copy of
+    #   a bytearray or (possibly writable) memoryview.
+    if isinstance(val, (bytearray, memoryview)):
+        val = bytes(val)  # type: ignore[assignment]
+    return strload(val)  # type: ignore[arg-type]
 
 
 @compat.lru_cache(maxsize=100_000)
